@@ -6,7 +6,8 @@ the events that reach `state.Cluster` for one provider id, as the code handles t
 * `Cluster.UpdateNode` / `newStateFromNode` (with the ingestion guard), `Cluster.DeleteNode` / `cleanupNode`
 * `Cluster.MarkForDeletion` / `UnmarkForDeletion`, `Cluster.NominateNodeForPod` / `StateNode.Nominate`
 * a pod event (`status.lastPodEventTime := now`, stored at one-second resolution) followed by its informer delivery
-* a run of the `nodeclaim.disruption` controller on the NodeClaim followed by the informer delivery of the result
+* a run of the `nodeclaim.disruption` controller on the NodeClaim — possibly with a failing drift check, a failing
+  NodePool read or a refused status patch — followed by the informer delivery of what was persisted
 * the clock advancing
 
 Core Lean only.
@@ -23,7 +24,8 @@ inductive Ev
   | unmark
   | nominate
   | podEvent                        -- lastPodEventTime := now (floored to the second), delivered
-  | reconcile                       -- nodeclaim.disruption controller on the tracked NodeClaim, result delivered
+  | reconcile (f : RFaults)         -- nodeclaim.disruption controller on the tracked NodeClaim (with the faults `f`
+                                    -- injected into that run), the persisted result delivered
 deriving Repr, DecidableEq
 
 structure HState where
@@ -75,11 +77,11 @@ def hstep (batchMax : Int) (pool : Pool) (st : HState) : Ev → HState
        | some c => { st with sn := deliverClaim st.sn { c with lastPodEvent := some (floorSec st.now) } }
        | none => st)
     | none => st
-  | .reconcile =>
+  | .reconcile f =>
     match st.sn with
     | some s =>
       (match s.claim with
-       | some c => { st with sn := deliverClaim st.sn (reconcileClaim pool c st.now) }
+       | some c => { st with sn := deliverClaim st.sn (reconcileClaimF f pool c st.now) }
        | none => st)
     | none => st
 
